@@ -10,6 +10,13 @@ class Opaque:
     pass
 
 
+def srepr(x, n=2000):
+    try:
+        return repr(x)[:n]
+    except ValueError:
+        return "<value containing an int beyond the 4300-digit text limit>"
+
+
 def hostile_value(rng, depth=2):
     k = rng.random()
     if k < 0.30:
@@ -226,14 +233,14 @@ def main(tier, seed):
                 known_hits["C04-recursion"] = known_hits.get("C04-recursion", 0) + 1
                 continue
             bad.append((c, o))
-    res.add_suite("hostile", len(hcases), len({repr((c.get("spec"), c.get("idx"), c.get("cls"), repr(c["value"])[:200])) for c in hcases}),
-                  [dict(case=repr(hcases[0])[:400], outcome=repr(outs[0]))],
+    res.add_suite("hostile", len(hcases), len({srepr((c.get("spec"), c.get("idx"), c.get("cls"))) + srepr(c["value"], 200) for c in hcases}),
+                  [dict(case=srepr(hcases[0], 400), outcome=repr(outs[0]))],
                   "hostile inputs (inf/nan in every spelling, huge numbers, undecodable bytes, objects, classes, iterators, cyclic and "
                   "deeply nested containers) on random constrained/logical types, date/uuid/enum targets and recursive data classes; "
                   "each call under a 2 s CPU watchdog; outcome must be a value or a ParseError",
                   dict(outcome_kinds=kinds, failures_inside_known_findings=known_hits))
     for c, o in bad[:3]:
-        res.violations.append(dict(case=repr(c)[:2000], case_seed=seeds[hcases.index(c)], observed=repr(o),
+        res.violations.append(dict(case=srepr(c), case_seed=seeds[hcases.index(c)], observed=repr(o),
                                    what="a non-ParseError exception or a hang escaped: %r" % (o,)))
     findings.replay_all(res, PID, {"C04-unhashable": unhashable_finding, "C04-huge-exponent": huge_exponent_finding,
                                     "C04-int-str-limit": int_str_limit_finding})
